@@ -58,7 +58,7 @@ def eraseFirst {α : Type} (p : α → Bool) : List α → List α
   | [] => []
   | y :: ys => if p y then ys else y :: eraseFirst p ys
 
-/-! ## `BaseObject.__eq__` (ids and `_merged` are not compared; child lists by name) -/
+/-! ## `BaseObject.__eq__` (ids, `_merged` and `_merged_attrs` are not compared; child lists by name) -/
 
 def valuesEq (cv : Conv V) : List V → List V → Bool
   | [], [] => true
@@ -97,6 +97,14 @@ end
 
 /-! ## `Section.unmerge(section)` -/
 
+/-- `for attr, value in self._merged_attrs.items():
+       if value is not None and getattr(self, attr) == value: setattr(self, attr, None)`
+    for one attribute: the value `merge` filled in is taken back unless it was changed since -/
+def unfill (cur filled : Option Str) : Option Str :=
+  match filled with
+  | none => cur
+  | some v => if cur == some v then none else cur
+
 /-- the Properties part of the loop of `unmerge`: a Property equal to the target's is removed,
     another one of the same name is kept (`Property.unmerge` does nothing) -/
 def unmergeProps (cv : Conv V) (own : List (PropT V)) : List (PropT V) → List (PropT V)
@@ -110,12 +118,15 @@ def unmergeProps (cv : Conv V) (own : List (PropT V)) : List (PropT V) → List 
 
 mutual
 /-- `self.unmerge(section)`: children equal to the target's are removed, others of the same
-    name (and type) are unmerged recursively; `_merged = None`. (The stored link is kept in
-    canonical form, see the header.) -/
+    name (and type) are unmerged recursively; the definition / reference recorded in
+    `_merged_attrs` are taken back and the record is emptied; `_merged = None`. (The stored link
+    is kept in canonical form, see the header.) -/
 def unmerge (cv : Conv V) : Sec V → Sec V → Sec V
   | self, .mk _ tprops tsecs =>
-    .mk { self.attrs with merged := none } (unmergeProps cv self.props tprops)
-        (unmergeSecs cv self.secs tsecs)
+    .mk { self.attrs with definition := unfill self.attrs.definition self.attrs.filledDef
+                          reference := unfill self.attrs.reference self.attrs.filledRef
+                          filledDef := none, filledRef := none, merged := none }
+        (unmergeProps cv self.props tprops) (unmergeSecs cv self.secs tsecs)
 /-- the Sections part of the loop; the removals are done after the loop in the code, which is
     the same list for unique sibling names -/
 def unmergeSecs (cv : Conv V) (own : List (Sec V)) : List (Sec V) → List (Sec V)
@@ -258,6 +269,11 @@ def linkTargets (doc : Doc V) : List (List Str) :=
     | some l => l.attrs.link.map parsePath
     | none => none)
 
+/-- a Section that is not merged: no `_merged` object and nothing recorded as filled in — the
+    state of every Section that was built, loaded or cleaned (`unmerge` re-establishes it) -/
+def notMerged (s : Sec V) : Bool :=
+  s.attrs.merged.isNone && s.attrs.filledDef.isNone && s.attrs.filledRef.isNone
+
 mutual
 def noLinks : Sec V → Bool
   | .mk a _ ss => a.link.isNone && a.incl.isNone && a.merged.isNone && noLinksList ss
@@ -271,13 +287,14 @@ def allPairs {α : Type} (p : α → α → Bool) : List α → Bool
   | a :: r => r.all (p a) && allPairs p r
 
 /-- linking Sections pairwise disjoint; every link target disjoint from every linking Section;
-    the children of a linking Section and every target carry no link / include / merge mark -/
+    a linking Section is not merged; its children and every target carry no link / include /
+    merge mark -/
 def inRegime (fetch : Str → Option (Doc V)) (doc : Doc V) : Bool :=
   let ls := linkers doc
   allPairs diverge ls &&
   (linkTargets doc).all (fun t => ls.all (fun p => diverge t p)) &&
   ls.all (fun p => match secAt doc p with
-    | some l => noLinksList l.secs && l.attrs.merged.isNone &&
+    | some l => noLinksList l.secs && notMerged l &&
       (match l.attrs.link, l.attrs.incl with
        | some txt, _ => (match secAt doc (parsePath txt) with | some t => noLinks t | none => false)
        | none, some txt =>
@@ -295,7 +312,10 @@ def noClash (l t : Sec V) : Bool :=
   t.secs.all (fun o => !secNameIn l.secs o.name) && t.props.all (fun o => !propNameIn l.props o.name)
 
 /-- nothing to fill: each of definition / reference is set in the linking Section or unset in the
-    target (delimits known finding `C12/definition-reference-filled-not-restored`) -/
+    target. Its complement was the region of the former finding
+    `C12/definition-reference-filled-not-restored` (fixed: `merge` records what it fills in,
+    `unmerge` takes it back); no theorem needs it any more, the driver still reports it so that
+    the witnesses of the finding are known to lie in that region. -/
 def noFill (l t : Sec V) : Bool :=
   (l.attrs.definition.isSome || t.attrs.definition.isNone || t.attrs.definition == some []) &&
   (l.attrs.reference.isSome || t.attrs.reference.isNone || t.attrs.reference == some [])
